@@ -255,6 +255,14 @@ def run_case(draw, strategies=('ddmin', 'hierarchical', 'hybrid'), jobs=(1, 2, 4
             opts['match_out_cc'] = 'cc-ok'
     if mutator_subsets:
         opts['extra_argv'] = draw(mutator_options())
+    # options that must not influence any property: debugging aids, variable order
+    misc = []
+    if draw(st.integers(0, 4)) == 0:
+        misc += ['--replace-by-variable-mode', 'dec']
+    if draw(st.integers(0, 5)) == 0:
+        misc += ['--dump-diffs']
+    if misc:
+        opts['misc_argv'] = misc
     return dict(text=text, spec=sp, spec_cc=spec_cc, opts=opts, mode=mode, fmt=fmt, source=src)
 
 
